@@ -61,14 +61,8 @@ func (c *Ctx) teardown(ru *report.Rule) *teardown {
 	if td.localDelete == nil || td.subsDelete == nil || td.sessDelete == nil || td.byClientID == nil || td.getTopics == nil || td.sessID == nil || td.lwt == nil || td.process == nil || td.closeM == nil || td.mountPoint == nil || td.clientID == nil {
 		return nil
 	}
-	sites := c.modFuncsCalling(td.localDelete)
-	var fns []*ssa.Function
-	for _, f := range sortedFuncs(sites) {
-		if f.Package() != nil && f.Package().Pkg.Path() == c.P.Rel("wasp") {
-			fns = append(fns, f)
-		}
-	}
-	if !ru.Anchor(len(fns) == 1, fmt.Sprintf("the teardown routine (the one function of package wasp that calls LocalState.Delete; found %d)", len(fns))) {
+	fns := c.deepestReachingAll("wasp", td.localDelete, td.subsDelete, td.sessDelete)
+	if !ru.Anchor(len(fns) == 1, fmt.Sprintf("the teardown routine (the innermost function of package wasp from which LocalState.Delete, Subscriptions.Delete and SessionMetadatas.Delete are all reached; found %d)", len(fns))) {
 		return nil
 	}
 	td.fn = fns[0]
@@ -82,12 +76,13 @@ func (c *Ctx) teardown(ru *report.Rule) *teardown {
 		return nil
 	}
 	c.R.Fn(c.fname(td.fn))
-	paths, err := core.EnumPaths(td.fn, core.PathOpts{})
+	paths, err := c.pathsInlined(td.fn, core.PathOpts{}, isAny(td.localDelete, td.subsDelete, td.sessDelete, td.byClientID, td.process, td.closeM, td.lwt, td.getTopics), nil)
 	if err != nil {
 		ru.Undecided("paths of the teardown routine", c.where(td.fn, td.fn), err.Error())
 		return nil
 	}
 	sess := ssa.Value(td.fn.Params[td.sessIdx])
+	isSess := func(p *core.Path, v ssa.Value) bool { return core.Strip(p.Resolve(core.Strip(v))) == sess }
 	for _, p := range paths {
 		if _, ok := p.Exit.(*ssa.Return); !ok {
 			continue
@@ -122,14 +117,14 @@ func (c *Ctx) teardown(ru *report.Rule) *teardown {
 				isMetaID := func(s string) bool { return stringsContains(s, ".SessionID") }
 				isOwnID := func(v ssa.Value) bool {
 					cv, ok := v.(*ssa.Call)
-					return ok && core.CallOf(cv).Is(td.sessID) && core.Strip(cv.Call.Args[0]) == sess
+					return ok && core.CallOf(cv).Is(td.sessID) && isSess(p, cv.Call.Args[0])
 				}
 				if (isMetaID(lt) && isOwnID(y)) || (isMetaID(rt) && isOwnID(x)) {
 					tp.mine = tri{true, cd.Val}
 				}
 			case *ssa.UnOp:
 				if v.Op == token.MUL {
-					if fa, ok := v.X.(*ssa.FieldAddr); ok && fieldNameOf(fa.X.Type(), fa.Field) == "Disconnected" && core.Strip(fa.X) == sess {
+					if fa, ok := v.X.(*ssa.FieldAddr); ok && fieldNameOf(fa.X.Type(), fa.Field) == "Disconnected" && isSess(p, fa.X) {
 						tp.disc = tri{true, cd.Val}
 					}
 				}
@@ -154,10 +149,10 @@ func (c *Ctx) teardown(ru *report.Rule) *teardown {
 	return td
 }
 
-// ownID: v is session.ID() of the teardown's session parameter.
-func (td *teardown) ownID(v ssa.Value) bool {
-	cv, ok := core.Strip(v).(*ssa.Call)
-	return ok && core.CallOf(cv).Is(td.sessID) && core.Strip(cv.Call.Args[0]) == ssa.Value(td.fn.Params[td.sessIdx])
+// ownID: v is session.ID() of the teardown's session parameter (p resolves parameters of inlined helpers).
+func (td *teardown) ownID(p *core.Path, v ssa.Value) bool {
+	cv, ok := core.Strip(p.Resolve(core.Strip(v))).(*ssa.Call)
+	return ok && core.CallOf(cv).Is(td.sessID) && core.Strip(p.Resolve(core.Strip(cv.Call.Args[0]))) == ssa.Value(td.fn.Params[td.sessIdx])
 }
 
 func (tp *tdPath) atoms() string {
